@@ -10,3 +10,8 @@ c26_g(K, fail, _, _) :- c26_log(t(K)), fail.
 c26_logs(NB, B) :-
     bb_get(c26_nb, L), reverse(L, NB),
     bb_get(c26_b, M), reverse(M, B).
+
+% unification through the head of an asserted fact (compiled head instructions, e.g. get_partial_string
+% for a string) instead of =/2
+:- dynamic(c26_h/1).
+c26_hu(V, T) :- retractall(c26_h(_)), assertz(c26_h(T)), c26_h(V).
